@@ -217,7 +217,7 @@ func verifH_Serve() {
 		verifAssert(started && err != nil, "C04+C09.protocol-error-ends-serve-with-error")
 		// the stream was opened by Serve and the peer is still there: Serve must end it,
 		// otherwise the network server keeps a dead tunnel registered and routes RPCs into it
-		verifAssert(str.closeSends > 0 || str.ctx.Err() != nil, "C04.serve-ends-the-carrier-it-opened")
+		verifAssert(str.closeSends > 0 || str.ctx.Err() != nil, "C04+C12+C14.serve-ends-the-carrier-it-opened")
 	}
 	if scenario >= 3 {
 		// settings are emitted iff the peer negotiates, with id -1 and the local revision list
